@@ -630,6 +630,15 @@ func prepareCall(fr *frame, call *ssa.CallCommon) (fn value, args []value) {
 		if recv.t == nil {
 			fr.i.rtPanic("invalid memory address or nil pointer dereference (method call on nil interface)")
 		}
+		if rb, ok := recv.v.(rtypeBox); ok {
+			// a modelled reflect.Type
+			fn = reflectTypeMethod(fr.i, call.Method.Name())
+			args = append(args, rb)
+			for _, arg := range call.Args {
+				args = append(args, fr.get(arg))
+			}
+			return
+		}
 		f := lookupMethod(fr.i, recv.t, call.Method)
 		if f == nil {
 			panic(fmt.Sprintf("method set for dynamic type %v does not contain %s", recv.t, call.Method))
@@ -657,6 +666,8 @@ func call(i *interpreter, caller *frame, callpos token.Pos, fn value, args []val
 		return callSSA(i, caller, callpos, fn.Fn, args, fn.Env)
 	case *ssa.Builtin:
 		return callBuiltin(i, caller, callpos, fn, args)
+	case hostFn:
+		return fn(&frame{i: i, caller: caller}, args)
 	}
 	panic(fmt.Sprintf("cannot call %T", fn))
 }
